@@ -258,10 +258,67 @@ class Ctx:
         goal = unwrap(goal)
         if isinstance(goal, bool):
             goal = z3.BoolVal(goal)
+        hyps = relevant(self.hypotheses(extra_terms), goal)
         self.obligations.append(
-            Obligation(name, self.hypotheses(extra_terms), goal, list(self.prefix[: self.cursor]), kind, meta,
-                       getvals)
+            Obligation(name, hyps, goal, list(self.prefix[: self.cursor]), kind, meta, getvals)
         )
+
+
+_DEF_FAMILIES = ("fd_s", "fd_q", "ti")
+_sym_cache = {}
+
+
+def _def_symbols(e):
+    """names of the definitional fresh symbols (floor-division quotients/fractions, truncations) in e"""
+    k = e.get_id()
+    if k in _sym_cache:
+        return _sym_cache[k]
+    out = set()
+    seen = set()
+    stack = [e]
+    while stack:
+        t = stack.pop()
+        i = t.get_id()
+        if i in seen:
+            continue
+        seen.add(i)
+        if z3.is_app(t):
+            if t.decl().kind() == z3.Z3_OP_UNINTERPRETED:
+                nm = t.decl().name()
+                if nm.split("!")[0] in _DEF_FAMILIES:
+                    out.add(nm)
+            stack.extend(t.children())
+        elif z3.is_quantifier(t):
+            stack.append(t.body())
+    _sym_cache[k] = out
+    return out
+
+
+def relevant(hyps, goal):
+    """cone of influence over the definitional symbols: the defining constraints of a quotient/truncation
+    symbol that is connected to the goal neither directly nor through other kept constraints cannot matter
+    for validity and only distract the non-linear solver.  Dropping hypotheses is always sound."""
+    cone = set(_def_symbols(goal))
+    infos = [(h, _def_symbols(h)) for h in hyps]
+    base = [h for h, syms in infos if not syms]
+    for h in base:
+        pass
+    pending = [(h, syms) for h, syms in infos if syms]
+    kept = []
+    changed = True
+    while changed:
+        changed = False
+        rest = []
+        for h, syms in pending:
+            if syms & cone:
+                kept.append(h)
+                if not syms <= cone:
+                    cone |= syms
+                changed = True
+            else:
+                rest.append((h, syms))
+        pending = rest
+    return base + kept
 
 
 def ctx() -> Ctx:
